@@ -361,6 +361,14 @@ int fp_prime_get_2ad(void) {
 }
 
 void fp_prime_set_dense(const bn_t p) {
+	ctx_t *ctx = core_get();
+
+	/* A dense modulus has no sparse form and no family parameter. */
+#if FP_RDC == QUICK || !defined(STRIP)
+	ctx->sps_len = 0;
+#endif
+	bn_zero(&(ctx->par));
+	ctx->par_len = 0;
 	fp_prime_set(p);
 #if FP_RDC == QUICK
 	RLC_THROW(ERR_NO_CONFIG);
@@ -382,7 +390,6 @@ void fp_prime_set_pairf(const bn_t x, int pairf) {
 		bn_new(t0);
 		bn_new(t1);
 
-		bn_copy(&(ctx->par), x);
 		bn_copy(t0, x);
 
 		switch (pairf) {
@@ -646,6 +653,7 @@ void fp_prime_set_pairf(const bn_t x, int pairf) {
 		}
 
 		/* Store parameter in NAF form. */
+		bn_copy(&(ctx->par), x);
 		ctx->par_len = 0;
 		bn_rec_naf(s, &len, &(ctx->par), 2);
 		/* Fix corner case to avoid problems with sparse representation. */
@@ -712,6 +720,8 @@ void fp_prime_set_pmers(const int *f, size_t len) {
 		ctx->sps[len] = 0;
 		ctx->sps_len = len;
 #endif /* FP_RDC == QUICK */
+		bn_zero(&(core_get()->par));
+		core_get()->par_len = 0;
 
 		fp_prime_set(p);
 	}
